@@ -21,6 +21,8 @@ func checkC12(c *Ctx) {
 	ruleDirTable(c)
 	ruleLoadDirectoryCallback(c)
 	ruleWalkProtocol(c, c.P, "R12.4")
+	ruleReadIsParse(c)
+	c.MinCount("R12.6", 1)
 	// R12.5 "a file that fails to parse is reported and skipped" needs the parse chain to report every failure
 	if pf := newParserFacts(c); pf.err == nil {
 		fns := pf.regionFuncs()
@@ -47,7 +49,7 @@ func ruleFindConfig(c *Ctx) {
 		return
 	}
 	c.Fn(shortFn(fn))
-	paths, err := Enumerate(fn, SymConfig{Prog: c.P, MaxDepth: 1, Collapse: true})
+	paths, err := Enumerate(fn, SymConfig{Prog: c.P, MaxDepth: 2, Collapse: true, MaxVisits: 9}) // a lookup chain written as a loop over a small fixed table unrolls completely
 	if !c.Require(err == nil, "R12.1", "config.FindConfig", fmt.Sprint(err)) {
 		return
 	}
@@ -208,8 +210,8 @@ func ruleDirTable(c *Ctx) {
 	// rows: stores into &array[i].field
 	type row struct {
 		root, label string
-		mapPath   string
-		pos       token.Pos
+		mapPath     string
+		pos         token.Pos
 	}
 	rows := map[int64]*row{}
 	for _, b := range fn.Blocks {
@@ -398,6 +400,7 @@ func walkCallbacks(p *Program) []struct {
 						}
 					}
 					if cb != nil {
+						cb = unwrapThunk(cb) // a method value (loader.visit) reaches Walk through a synthetic $bound wrapper
 						out = append(out, struct {
 							fn     *ssa.Function
 							site   ssa.Instruction
@@ -433,7 +436,10 @@ func ruleLoadDirectoryCallback(c *Ctx) {
 	}
 	c.Paths += len(paths)
 	pos := c.P.Pos(cb.Pos())
-	type res struct{ n int; bad string }
+	type res struct {
+		n   int
+		bad string
+	}
 	agg := map[string]*res{}
 	note := func(k, bad string) {
 		if agg[k] == nil {
@@ -523,7 +529,7 @@ func ruleLoadDirectoryCallback(c *Ctx) {
 				note(k, "a loaded configuration must be stored exactly once and the walk continue")
 			} else {
 				e := sets[0]
-				if e.Args[0].Op != "freevar" && !(e.Args[0].Op == "load" && e.Args[0].Args[0].Op == "freevar") {
+				if e.Args[0].Op != "freevar" && !(e.Args[0].Op == "load" && e.Args[0].Args[0].Op == "freevar") && !receiverFieldIsParam(ld, cb, e.Args[0]) {
 					note(k, "entry stored into something else than the directory's map: "+e.Args[0].String())
 				} else if !strings.HasSuffix(e.Args[1].String(), ".Config.ID") {
 					note(k, "entry stored under "+e.Args[1].String()+" instead of the configuration's identifier")
@@ -611,4 +617,99 @@ func controlsC12(p *Program) []controlResult {
 	// controls/walk has one broken and one correct callback
 	ok := total == 2 && v == 1
 	return []controlResult{{Name: "R12.4 walk-callback protocol fires on controls/walk.Bad and not on controls/walk.Good", OK: ok, Detail: fmt.Sprintf("callbacks=%d violations=%d (expected 2 and 1)", total, v)}}
+}
+
+// receiverFieldIsParam: t is `recv.F` inside the method cb (a Walk callback given as a method value) and the function
+// that builds the receiver (host) stores one of its own map-typed parameters into field F.
+func receiverFieldIsParam(host, cb *ssa.Function, t *Term) bool {
+	if cb.Signature.Recv() == nil || len(cb.Params) == 0 {
+		return false
+	}
+	t = t.StripConv()
+	var f *types.Var
+	switch {
+	case t.Op == "field" && len(t.Args) == 1 && t.Args[0].Op == "param" && t.Args[0].Aux == cb.Params[0].Name():
+		f, _ = t.Obj.(*types.Var)
+	case t.Op == "load" && len(t.Args) == 1 && t.Args[0].Op == "fieldaddr" && len(t.Args[0].Args) == 1:
+		base := t.Args[0].Args[0]
+		if base.Op == "param" && base.Aux == cb.Params[0].Name() || base.Op == "alloc" {
+			f, _ = t.Args[0].Obj.(*types.Var)
+		}
+	}
+	if f == nil {
+		return false
+	}
+	for _, b := range host.Blocks {
+		for _, in := range b.Instrs {
+			st, ok := in.(*ssa.Store)
+			if !ok {
+				continue
+			}
+			if g := fieldOfAddr(st.Addr); g != nil && sameField(g, f) {
+				if _, isParam := st.Val.(*ssa.Parameter); isParam {
+					return true
+				}
+			}
+		}
+	}
+	return false
+}
+
+// ruleReadIsParse: R12.6 a file is registered only with the configuration ParseData accepted for it: every nil-error
+// return of readDeviceConfig hands out a DeviceConfig whose Config is the first result of the ParseData call whose error
+// was found nil on that path (an empty or unreadable file must not yield an "empty success").
+func ruleReadIsParse(c *Ctx) {
+	fn := c.P.Func(pkgConfig, "", "readDeviceConfig")
+	pd := c.P.Func(pkgConfig, "", "ParseData")
+	if !c.Require(fn != nil && pd != nil, "R12.6", "anchor:config.readDeviceConfig", "readDeviceConfig/ParseData not found") {
+		return
+	}
+	c.Fn(shortFn(fn))
+	paths, err := Enumerate(fn, SymConfig{Prog: c.P, MaxDepth: 2, Collapse: true, NoInline: map[*ssa.Function]bool{pd: true}})
+	if !c.Require(err == nil, "R12.6", "config.readDeviceConfig/paths", fmt.Sprint(err)) {
+		return
+	}
+	c.Paths += len(paths)
+	pos := c.P.Pos(fn.Pos())
+	n, bad := 0, ""
+	for _, p := range paths {
+		if p.End != "return" || len(p.Ret) != 2 || !p.Ret[1].IsNil() {
+			continue
+		}
+		n++
+		calls := p.Calls(pd)
+		if len(calls) != 1 {
+			bad = fmt.Sprintf("a success return is reached with %d ParseData call(s) on the path: a file is registered without having been parsed", len(calls))
+			continue
+		}
+		// ParseData's error was tested nil on this path
+		errNil := false
+		for _, a := range p.Atoms {
+			op, l, r, ok := normAtom(a)
+			if !ok {
+				continue
+			}
+			if r.IsNil() && op == "==" && strings.Contains(l.String(), "ParseData") && l.Op == "extract" && l.Aux == "1" {
+				errNil = true
+			}
+			if l.IsNil() && op == "==" && strings.Contains(r.String(), "ParseData") && r.Op == "extract" && r.Aux == "1" {
+				errNil = true
+			}
+		}
+		if !errNil {
+			bad = "a success return does not depend on ParseData's error being nil"
+			continue
+		}
+		// the returned struct carries ParseData's first result
+		if !p.Ret[0].Any(func(x *Term) bool {
+			return x.Op == "extract" && x.Aux == "0" && len(x.Args) == 1 && x.Args[0].Op == "call" && strings.Contains(x.Args[0].Aux, "ParseData")
+		}) {
+			bad = "the DeviceConfig handed out on success does not carry the configuration ParseData returned: " + truncate(p.Ret[0].String(), 140)
+		}
+	}
+	if n == 0 {
+		c.Undec("R12.6", "config.readDeviceConfig/success-returns", pos, "no nil-error return found")
+		return
+	}
+	c.Check(bad == "", "R12.6", "config.readDeviceConfig/success=parsed", pos, fmt.Sprintf("%d success path(s), each returns ParseData's result under its nil error", n), bad)
 }
